@@ -96,6 +96,7 @@ func (m *promptManager) getPrompts() []*Prompt {
 
 	prompts := make([]*Prompt, 0, len(m.prompts))
 	for _, registeredPrompt := range m.prompts {
+		verifEvent("reg.list.item", m)
 		prompts = append(prompts, registeredPrompt.Prompt)
 	}
 	return prompts
